@@ -205,7 +205,9 @@ def _expected_names(idents):
 
 def enum_members(pool: int, n: int, i0: int, i1: int, i2: int, i3: int,
                  v0: int, v1: int, v2: int, v3: int,
-                 p0: bool, p1: bool, p2: bool, p3: bool, bitfield: bool, typedef: bool):
+                 p0: bool, p1: bool, p2: bool, p3: bool, bitfield: bool, typedef: bool, skip_member: int = -1):
+    """skip_member: index of a member that has a comment block of its own carrying (skip); it must
+    still be listed (the statement asks for all public members)."""
     pool_ids = POOLS[pool]
     idx = [i0, i1, i2, i3][:n]
     vals = [v0, v1, v2, v3][:n]
@@ -218,6 +220,9 @@ def enum_members(pool: int, n: int, i0: int, i1: int, i2: int, i3: int,
                 return True
     sc = Scan(symbol_prefixes=['foo', 'bar'])
     members = [s_enum_member(idents[k], vals[k], private=priv[k]) for k in range(n)]
+    if 0 <= skip_member < n:
+        sc.add_block(gistub.mk_block(idents[skip_member], annotations={'skip': []}))
+        sc.add_block(gistub.mk_block('FooKind', description='the enumeration'))
     sc.parse([s_enum('FooKind', members, is_bitfield=bitfield, typedef=typedef)])
     if not sc.transform():
         return 'pipeline aborted: %r' % (sc.fatal,)
